@@ -139,6 +139,9 @@ func cmdCheck(argv []string) int {
 		}
 		extraReps = sr
 	}
+	if *prop == "C05" && *only == "" {
+		extraReps = append(extraReps, typestateCheck(l, *prop)...)
+	}
 	known := loadKnown()
 	shortFor := map[string]bool{}
 	for _, kf := range known.Findings {
